@@ -40,6 +40,39 @@ def respell(name, spelling, prefix):
     return name
 
 
+def grain_species(name):
+    core = name.rstrip("+-")
+    q = name.count("+", len(core)) - name.count("-", len(core))
+    return {"name": name, "comp": {"GRAIN": 1}, "charge": q, "surface": False, "label": "", "electron": False,
+            "alias": core + ("I" * (q + 1) if q >= 0 else "M" * (-q)), "massnumber": 0}
+
+
+def add_grain_charging(rng, net):
+    """Dust grains in several charge states with balanced charging / recombination reactions:
+    e- + GRAIN0 -> GRAIN-,  X+ + GRAIN- -> X + GRAIN0,  X+ + GRAIN0 -> X + GRAIN+,  e- + GRAIN+ -> GRAIN0."""
+    by = {s["name"]: s for s in net["species"]}
+    states = ["GRAIN0", "GRAIN-"] + (["GRAIN+"] if rng.random() < 0.5 else [])
+    for g in states:
+        by[g] = grain_species(g)
+    if "e-" not in by:
+        by["e-"] = chem.make_species([], electron="e-")
+    new = [(["e-", "GRAIN0"], ["GRAIN-"])]
+    if "GRAIN+" in states:
+        new.append((["e-", "GRAIN+"], ["GRAIN0"]))
+    # cation + neutral pairs already in the pool (same composition, charge +1 / 0, unlabelled gas species)
+    neutral = {tuple(sorted(s["comp"].items())): s for s in net["species"] if s["charge"] == 0 and not s["surface"] and not s["label"] and not s["electron"]}
+    for s in list(net["species"]):
+        if s["charge"] == 1 and not s["label"] and tuple(sorted(s["comp"].items())) in neutral:
+            n0 = neutral[tuple(sorted(s["comp"].items()))]["name"]
+            new.append(([s["name"], "GRAIN-"], [n0, "GRAIN0"]))
+            if "GRAIN+" in states and rng.random() < 0.5:
+                new.append(([s["name"], "GRAIN0"], [n0, "GRAIN+"]))
+    for res, prs in new:
+        net["reactions"].append({"reactants": res, "products": prs, "pseudo": None, "idx": len(net["reactions"]) + 1})
+    used = {n for r in net["reactions"] for n in r["reactants"] + r["products"]}
+    net["species"] = [by[n] for n in sorted(used)]
+
+
 def make_case(rng, tier):
     surface = rng.random() < 0.4
     upper = rng.random() < 0.25
@@ -52,9 +85,12 @@ def make_case(rng, tier):
         if un is not None:
             net = case["net"] = un
             case["spelling"] = "upper_replace"
+    if not case.get("spelling") and rng.random() < 0.25:
+        add_grain_charging(rng, net)
+        case["grain_charging"] = True
     reacs = net["reactions"]
     case["alphas"] = chem.distinct_alphas(rng, len(reacs))
-    if reacs and rng.random() < 0.5:
+    if reacs and rng.random() < 0.5 and not case.get("grain_charging"):
         # file entry with per-file spellings of the electron and of the surface prefix
         n = len(reacs)
         ncut = rng.randint(1, min(3, n))
@@ -244,6 +280,8 @@ def run_case(case, ctx):
         tags.add("electron")
     if any("D" in s["comp"] for s in species):
         tags.add("deuterated")
+    if case.get("grain_charging"):
+        tags.add("grain_charge_states")
     if case.get("spelling"):
         tags.add("spelling_" + case["spelling"])
         if any(s["charge"] < 0 and not s["electron"] for s in species):
